@@ -41,7 +41,8 @@ def cases(tier, seed):
         if prof == "burst":
             par = R.choice([16, 32])
         s = dict(stage=st, profile=prof, par=par, seed=R.randrange(1 << 30))
-        s["long_item"] = (i % 4 == 1)  # one item whose processing outlasts every (dilated) time-out after the queue has drained
+        s["long_item"] = (i % 4 == 1)
+        s["kill_item"] = (st in ("leaves", "doone") and i % 7 == 3)  # the worker processing one item is SIGKILLed (OOM killer, segfault)  # one item whose processing outlasts every (dilated) time-out after the queue has drained
         if st == "leaves":
             s["pyr"] = gens.gen_pyramid(R, maxdepth=4 if tier == "quick" else 5, mindepth=0 if i % 20 == 0 else 1, sub_p=0.35)
         elif st in ("u8", "f16", "doone"):
@@ -135,6 +136,7 @@ def case_leaves(spec, workdir):
     cs = gens.coordsys_of(ps)
     res = {}
     long_pos = None
+    kill_pos = sorted(ref)[len(ref) // 2] if (spec.get("kill_item") and len(ref) >= 2) else None
     if spec.get("long_item") and ref:
         # the last leaf in enumeration order is the last one handed out: it is still being processed when the queue is empty
         long_pos = max(ref, key=lambda p: (p[2], p[1])) if random.Random(spec["seed"]).random() < 0.5 else sorted(ref)[-1]
@@ -158,6 +160,11 @@ def case_leaves(spec, workdir):
                 import time as _time
 
                 _time.sleep(0.6)
+            if kill_pos is not None and p == kill_pos and par > 1:
+                import signal as _signal
+
+                evlog.ev("worker_killed", pos=p)
+                os.kill(os.getpid(), _signal.SIGKILL)
             evlog.ev("cb_end", pos=p)
 
         outcome, info = _run(lambda: pyr.visit_leaves(cb, parallel=par), log, par)
@@ -168,6 +175,15 @@ def case_leaves(spec, workdir):
     outcome, info, recs, log = res["par"]
     if outcome == "watchdog":
         return dict(status="inconclusive", detail="watchdog")
+    if kill_pos is not None and any(r["k"] == "worker_killed" for r in recs):
+        # an item was never fully processed: the stage must not come back as if everything had been done, and must not hang
+        r = _result(spec, [], recs, log, items=len(ref), shape=["leaves-kill", ps["kind"], depth, apex[0], spec["par"], spec["profile"]])
+        r["counters"]["worker_kills"] = 1
+        if outcome == "returned":
+            r.update(status="violation", key="returned-although-a-worker-was-killed", detail="a worker was SIGKILLed while processing leaf %s, yet visit_leaves returned normally" % (kill_pos,), witness_files=dict(eventlog=log))
+        elif outcome == "stuck":
+            r.update(status="violation", key="stage-stuck-after-worker-kill", detail="stuck after a worker was SIGKILLed: %s" % info, witness_files=dict(eventlog=log))
+        return r
     _outcome_violation(outcome, info, recs, v)
     puts, gets = _generic_history_checks(recs, v)
     starts = collections.Counter(tuple(r["pos"]) for r in recs if r["k"] == "cb_start")
